@@ -10,8 +10,9 @@
     R<k> <addr-hex> <arg-token>*   /   Q<k> …               RtData::reply / broadcast, k-th call site
 
   arg tokens as in engine `osc`:  w<8 hex>  q<16 hex>  m<8 hex>  s<hex|->  b<len>:<hex|-|N>
-  Output of M:  z=<ret for NULL buffer> g=ok c=<cap>:<ret>:<block>,…     (B: without z=)
-    block: hex, `z<n>` for n zero bytes, `-` for the empty block; `g=` is the harness' canary verdict.
+  Output of M:  z=<ret for NULL buffer> g=ok c=<cap>:<ret>:<bytes>,…     (B: without z=)
+    bytes: the `ret` bytes written; after a failed call (ret = 0) the whole block — hex, `z<n>` for n
+    zero bytes, `-` for the empty block; `g=` is the harness' canary verdict.
   If the model predicts an out-of-bounds store or read the line is the sanitizer's verdict.
 -/
 import Driver.BundleEngine
@@ -74,7 +75,8 @@ def sweep (lo hi : Nat) (call : Bytes → Except Fail (Bytes × Nat)) : Except F
   let mut parts : List String := []
   for cap in List.range' lo (hi + 1 - lo) do
     let (buf, ret) ← call (fresh cap)
-    parts := s!"{cap}:{ret}:{hexz buf}{if ret > cap then "!ret-exceeds-len" else ""}" :: parts
+    let shown := if ret = 0 then hexz buf else if ret ≤ cap then toHex (buf.take ret) else ""
+    parts := s!"{cap}:{ret}:{shown}{if ret > cap then "!ret-exceeds-len" else ""}" :: parts
   return ",".intercalate parts.reverse
 
 def templates : List String := ["", "s", "isi", "ss", "b", "ifs", "sT", "hd"]
@@ -111,12 +113,11 @@ def stepB (lo hi : Nat) (toks : List String) : String :=
 def tlinkState (maxMsg : Nat) (res : Option AResult) : String :=
   match res with
   | some ⟨some b, ret, false⟩ =>
-    let head := s!"w={hexz b} n={if ret > 0 then 1 else 0}"
-    if ret = 0 then head
+    if ret = 0 then s!"n=0 w={hexz b}"
     else
       let rb := b.take ret ++ zeros (maxMsg - ret)        -- read_buffer after read()
       match messageLength rb with
-      | some l => head ++ s!" m={l}:{toHex (rb.take l)}"
+      | some l => s!"n=1 m={l}:{toHex (rb.take l)}"
       | none => hang
   | some ⟨_, _, true⟩ => crash
   | _ => "unmodelled"
